@@ -613,7 +613,7 @@ impl NameAndUrl {
     pub fn parse(s: &str) -> Self {
         if let Some(s) = s.trim_ascii_end().strip_suffix('>') {
             if let Some((name, url)) = s.split_once('<') {
-                if !url.trim().is_empty() && !url.contains(['<', '>']) {
+                if is_url(url.trim()) && !url.contains(['<', '>']) {
                     return Self::new(Some(name), Some(url));
                 }
             }
